@@ -1,6 +1,7 @@
 package harness
 
 import (
+	"crypto/tls"
 	"errors"
 	"fmt"
 	"net"
@@ -36,6 +37,8 @@ type c18Plan struct {
 	Dials     []c18Dial   `json:"dials"`
 	Callers   [][]c18Call `json:"callers"`
 	CloseIdleAtMs []int   `json:"close_idle_connections_at_ms,omitempty"` // CloseIdleConnections called during traffic
+	TLS       bool        `json:"tls,omitempty"`                  // IsTLS client against a real crypto/tls endpoint
+	BadHandshake []bool   `json:"bad_handshake,omitempty"`        // per accepted connection: the peer answers the ClientHello with plaintext
 }
 
 func init() { scenarios["C18"] = scenC18 }
@@ -62,6 +65,12 @@ func scenC18(e *Env) func() {
 			cs = append(cs, c18Call{ID: fmt.Sprintf("%d-%d", ci, i), TimeoutMs: Pick(e, 0, 20, 300, 1000, 10000), GapMs: Pick(e, 0, 0, 1, 50, 500), Method: Pick(e, "GET", "GET", "POST"), Act: a})
 		}
 		p.Callers = append(p.Callers, cs)
+	}
+	if e.Chance(20) {
+		p.TLS = true
+		for i := 0; i < 16; i++ {
+			p.BadHandshake = append(p.BadHandshake, e.Chance(35))
+		}
 	}
 	for i, n := 0, Pick(e, 0, 0, 1, 2, 4); i < n; i++ {
 		at := Pick(e, 0, 1, 10, 50, 200, 500, 2000)
@@ -91,6 +100,21 @@ func c18Run(e *Env, p *c18Plan) {
 		}
 	}
 	fs.Plan = func(id string, req *http.Request) srvAction { return acts[id] }
+	if p.TLS {
+		srvCfg := c21TLSConfig("h1.test", "h2.test")
+		accepted := 0
+		fs.Wrap = func(c net.Conn) net.Conn {
+			k := accepted
+			accepted++
+			if k < len(p.BadHandshake) && p.BadHandshake[k] {
+				// not a TLS endpoint after all: the handshake fails at once
+				e.Fault("tls_handshake_garbage")
+				c.Write([]byte("HTTP/1.1 400 Bad Request\r\nConnection: close\r\n\r\n"))
+				return c
+			}
+			return tls.Server(c, srvCfg)
+		}
+	}
 	fs.Start()
 	holdBudget := time.Duration(e.Cfg.Holds) * e.Cfg.HoldMax
 	var mu sync.Mutex
@@ -157,6 +181,10 @@ func c18Run(e *Env, p *c18Plan) {
 	if p.FIFO {
 		hc.ConnPoolStrategy = fasthttp.FIFO
 	}
+	if p.TLS {
+		hc.IsTLS = true
+		hc.TLSConfig = &tls.Config{InsecureSkipVerify: true, MinVersion: tls.VersionTLS12, MaxVersion: tls.VersionTLS12, Rand: zeroReader{}}
+	}
 	var fsx []func()
 	for ci := range p.Callers {
 		ci := ci
@@ -164,7 +192,11 @@ func c18Run(e *Env, p *c18Plan) {
 			for _, c := range p.Callers[ci] {
 				time.Sleep(time.Duration(c.GapMs) * time.Millisecond)
 				req, resp := fasthttp.AcquireRequest(), fasthttp.AcquireResponse()
-				req.SetRequestURI("http://10.0.0.2/p?id=" + c.ID)
+				if p.TLS {
+					req.SetRequestURI("https://10.0.0.2:80/p?id=" + c.ID)
+				} else {
+					req.SetRequestURI("http://10.0.0.2/p?id=" + c.ID)
+				}
 				req.Header.SetMethod(c.Method)
 				start := Now()
 				var err error
